@@ -320,7 +320,7 @@ def main(tier):
             res = tlc.run("MC_RopeHistory", cfg)
         else:
             tlc.write_cfg(cfg, constants=consts, invariants=INVARIANTS + ["Export"])
-            res = tlc.run("MC_RopeHistory", cfg, simulate={"num": max(1, num // 16)}, depth=60, seed=common.SEED + 7,
+            res = tlc.run("MC_RopeHistory", cfg, simulate={"num": max(1, num // 16)}, depth=32, seed=common.SEED + 7,
                           on_tagged=on_beh, collect_tags=False)
         os.unlink(cfg)
         print("TLC RopeHistory[%s]:" % name, res.summary(), "behaviours:", len(got))
